@@ -456,3 +456,21 @@ def gen_extra(thorough: bool) -> Iterator[tuple[str, list[list[Any]]]]:
     def loops(k: int, names: tuple[str, str]) -> list[Any]:
         return [Forever([P(names[0]), If(False, [Hdr(k)], [Ctl("break_loop")])]), P(names[1]), Ctl("end")]
     yield "same-shape-routines", [loops(1, ("a", "b")), loops(2, ("c", "d"))]
+    # a switch inside a loop: the branches that only `break;` lead to the end of the switch, which is the loop's next round
+    def switches(k: int) -> list[tuple[str, Any]]:
+        return [
+            ("one-case", Switch(k, [Case([1], [P("a"), Ctl("break")])])),
+            ("fall-into-break-only", Switch(k, [Case([1], [P("a"), Ctl("break")]), Case([2], [P("b")]), Case([3], [Ctl("break")])])),
+            ("fall-chain", Switch(k, [Case([1], [P("a")]), Case([2], [P("b")]), Case([3], [P("c"), Ctl("break")])])),
+            ("default-last", Switch(k, [Case([1], [P("a"), Ctl("break")]), Default([P("d"), Ctl("break")])])),
+            ("break-only-and-default", Switch(k, [Case([1], [Ctl("break")]), Case([2], [P("b")]), Default([Ctl("break")])])),
+            ("leaves-the-loop", Switch(k, [Case([1], [P("a"), Ctl("break")]), Case([2], [Ctl("break_loop")]), Case([3], [Ctl("continue")])])),
+        ]
+    for sname, sw in switches(1):
+        for loop in ("forever", "while"):
+            for inside_if in (False, True):
+                for tail in (False, True):
+                    body = [sw] + ([P("t")] if tail else [])
+                    lp: Any = Forever(body) if loop == "forever" else While(False, Hdr(7), body)
+                    stmts = [If(False, [Hdr(8)], [lp])] if inside_if else [lp]
+                    yield "switch-in-loop", [stmts + [Ctl("hold")]]
